@@ -67,9 +67,9 @@ Print Assumptions C17_nonvacuous.
 
 (* C17_inputs_as_in_C01 with its hypothesis discharged: whatever order Reorder chose, a chain that
    binds refines the reference semantics of its plan, provided the sort left every included
-   per-invocation provider other than plain injectors behind the invoke function (and an init function's returns have slots). *)
+   per-invocation provider other than plain injectors behind the invoke function. *)
 Theorem C17_inputs_as_in_C01_bound : forall c pl b,
-  bind_chain c = Ok (pl, b) -> runs_after_invoke pl = true -> init_covered pl = true ->
+  bind_chain c = Ok (pl, b) -> runs_after_invoke pl = true ->
   exists sp, splan_of (bc_te c) pl = Some sp /\
   forall (W : Type) beh_fn beh_wrap steps (w0 : W),
     let m := run_session W beh_fn beh_wrap b (mkSess W w0 (bd_base0 b) false true) steps in
